@@ -34,6 +34,14 @@ theorem c16_no_user_code_under_lock :
     Generated.protocolUnderTemplatesLock.all (fun p => ["InterrogateVersion", "InterrogateMethods", "CreateInstance"].contains p) = true := by
   decide
 
+/-- Concurrent calls on a *shared* connection reach one implementation object from several threads at once.  The
+    library can only promise the sequential results (`c16_same_results` is about connection creation; a call is the
+    implementation's own code) if safe code cannot share a connection whose implementation is not `Sync`: the
+    unsafe `Sync` impl of `AbiConnection<T>` has to ask `T: Sync`, the `Send` impl `T: Send`. -/
+theorem c16_connection_auto_traits :
+    (Generated.connSyncBounds.getD []).contains "Sync" = true ∧ (Generated.connSendBounds.getD []).contains "Send" = true := by
+  decide
+
 theorem c16_programs_ordered (k : Nat) (ks : List Nat) :
     Ordered progGetSymbol [] ∧ Ordered (progNewInternal k) [] ∧ Ordered (progLoadLibrary k) [] ∧ Ordered (progCall ks) [] := by
   refine ⟨by simp [progGetSymbol, Ordered, Lock.rank], by simp [progNewInternal, Ordered], ?_, ?_⟩
